@@ -3,28 +3,39 @@ import RModel.Model.History
 import RModel.Model.HistorySpec
 import RModel.Model.HistoryTree
 import RModel.Lemmas.History
+import RModel.Lemmas.HistoryStatus
 import RModel.Lemmas.HistoryRefine
 import RModel.Lemmas.HistoryTree
 /-
   C10 — History is a consistent append-only record under any operation sequence.   (property theorems only)
 
-  Full statement: `C10_full` below (a `def … : Prop`; FALSE today — four kernel-evaluated witnesses).
-  Proved for EVERY tree side `ops`, every start state, every command list and every clock schedule (`tick`s):
+  Full statement: `C10_full` below (a `def … : Prop`; still FALSE — two kernel-evaluated witnesses remain:
+  `C10_witness_undo_older`, `C10_witness_redo_partial`).
+
+  A. Proved for EVERY tree side `ops`, every start state, every command list, every clock schedule (`tick`s), and for
+     the code with or without the two repairs c3d511b / 07a4584 (`cfg`):
     * `append_only`            the history after a run has the history before it as a prefix;
-    * `step_appends`           one command leaves `entries` alone or appends exactly one entry, and appends one
-                               iff it reports success;
-    * `fresh_id_partial`       the id of an appended entry is not in the history it is appended to (this is the
-                               duplicate check of `add_entry`, not a property of how ids are generated), hence
-    * `ids_nodup`              ids stay pairwise distinct along every run;
-    * `rejected_unchanged`     a command rejected by the eligibility checks changes nothing at all;
-    * `undo_eligibility`, `redo_eligibility`   what the implementation tests before it undoes / redoes;
-    * `refines_spec_partial`   under the guard `G10` (checked command by command along the run) and the round-trip
-                               law of the tree side, every command conforms to the abstract history.
-  `G10` clause by clause: a rename/redo must compute an id that is not yet in the history (`freshId`: no two
-  id-equal commands in one second), must not stop half-way through its files (`noPartial`: C04's subject), an
-  undo that passes the implementation's eligibility test must address an operation the abstract history has as
-  applied and whose post-state is the current tree (`undoInPlace`), a redo that passes must address an
-  operation the abstract history has as undone and whose pre-state is the current tree (`redoInPlace`).
+    * `step_appends`, `one_entry_per_success`   a command leaves `entries` alone or appends exactly one entry, and
+                               appends one iff it reports success;
+    * `fresh_id_partial`, `ids_nodup`   an appended id is not in the history it is appended to (`add_entry`);
+    * `rejected_unchanged`     a rejected command changes nothing at all;
+    * `undo_eligibility`, `redo_eligibility`   what the implementation tests before it undoes / redoes.
+  B. Proved for the code as it is (`Cfg.current`), all sequences:
+    * `duplicate_id_changes_nothing`   a rename / redo whose id is already in the history leaves the world unchanged
+                               (same second, or the unseparated concatenation `ab→c` / `a→bc`);
+    * `failed_only_by_partial_apply`   the only way a rename / redo fails after a change is the tree side stopping
+                               half-way (`noPartial`, C04's subject) — never a duplicate id;
+    * `redo_only_once`, `redo_never_again`   a redo succeeds only on an id that has no redo entry, and once it has one
+                               every later `redo <id>` of any run is rejected with the world unchanged.
+  C. `refines_spec_partial`: under the guard `G10` (checked command by command along the run) and the round-trip law of
+     the tree side, every command conforms to the abstract history.  `G10` has three clauses left, one per remaining
+     way out of the property: `noPartial`, `undoInPlace` (tree = post-state of the addressed operation),
+     `redoInPlace` (tree = pre-state).  Freshness of ids and "undo only while applied / redo only while undone" are no
+     longer assumed: they are consequences (`Lemmas/HistoryStatus.lean`).
+  D. What the two repairs removed, as theorems about the code before them (`Cfg.beforeFixes`):
+     `same_second_before_fix`, `concat_collision_before_fix`, `redo_twice_before_fix`, `redo_id_collision_before_fix`,
+     each next to the statement of what the same sequence does now; and each repair is needed on its own
+     (`early_check_alone_keeps_redo_twice`, `redo_once_alone_keeps_same_second`).
 -/
 namespace C10
 open History HistorySpec
@@ -32,54 +43,58 @@ open History HistorySpec
 section generic
 variable {Tree Plan Backup H : Type} [DecidableEq H]
 
+-- A. every cfg ---------------------------------------------------------------------------------------------
+
 /-- One command leaves `entries` unchanged or appends exactly one entry whose id was not there;
     it appends iff it reports success. -/
-theorem step_appends (ops : Ops Tree Plan Backup H) (w : World Tree Plan Backup H) (c : Cmd H) :
-    ((step ops w c).2 = .ok ∧ AppendsOne w.entries (step ops w c).1.entries) ∨
-    ((step ops w c).2 ≠ .ok ∧ (step ops w c).1.entries = w.entries) :=
-  History.step_appends ops w c
+theorem step_appends (cfg : Cfg) (ops : Ops Tree Plan Backup H) (w : World Tree Plan Backup H) (c : Cmd H) :
+    ((step cfg ops w c).2 = .ok ∧ AppendsOne w.entries (step cfg ops w c).1.entries) ∨
+    ((step cfg ops w c).2 ≠ .ok ∧ (step cfg ops w c).1.entries = w.entries) :=
+  History.step_appends cfg ops w c
 
 /-- Append-only, all sequences, all clocks: earlier entries are never lost, altered or duplicated. -/
-theorem append_only (ops : Ops Tree Plan Backup H) (w : World Tree Plan Backup H) (cs : List (Cmd H)) :
-    w.entries <+: (run ops w cs).1.entries :=
-  History.run_prefix ops w cs
+theorem append_only (cfg : Cfg) (ops : Ops Tree Plan Backup H) (w : World Tree Plan Backup H) (cs : List (Cmd H)) :
+    w.entries <+: (run cfg ops w cs).1.entries :=
+  History.run_prefix cfg ops w cs
 
 /-- … and the number of entries added is the number of commands that reported success. -/
-theorem one_entry_per_success (ops : Ops Tree Plan Backup H) (w : World Tree Plan Backup H) (cs : List (Cmd H)) :
-    (run ops w cs).1.entries.length = w.entries.length + (run ops w cs).2.count .ok :=
-  History.run_length ops w cs
+theorem one_entry_per_success (cfg : Cfg) (ops : Ops Tree Plan Backup H) (w : World Tree Plan Backup H)
+    (cs : List (Cmd H)) :
+    (run cfg ops w cs).1.entries.length = w.entries.length + (run cfg ops w cs).2.count .ok :=
+  History.run_length cfg ops w cs
 
 /-- The appended id is fresh — because `add_entry` refuses a duplicate, whatever the id generator does. -/
-theorem fresh_id_partial (ops : Ops Tree Plan Backup H) (w : World Tree Plan Backup H) (c : Cmd H) (e : Entry H)
-    (h : (step ops w c).1.entries = w.entries ++ [e]) : hasId w.entries e.id = false :=
-  History.step_fresh ops w c e h
+theorem fresh_id_partial (cfg : Cfg) (ops : Ops Tree Plan Backup H) (w : World Tree Plan Backup H) (c : Cmd H)
+    (e : Entry H) (h : (step cfg ops w c).1.entries = w.entries ++ [e]) : hasId w.entries e.id = false :=
+  History.step_fresh cfg ops w c e h
 
 /-- ids stay pairwise distinct along every run -/
-theorem ids_nodup (ops : Ops Tree Plan Backup H) (w : World Tree Plan Backup H) (cs : List (Cmd H))
-    (h : (w.entries.map (·.id)).Nodup) : ((run ops w cs).1.entries.map (·.id)).Nodup :=
-  History.run_nodup ops w cs h
+theorem ids_nodup (cfg : Cfg) (ops : Ops Tree Plan Backup H) (w : World Tree Plan Backup H) (cs : List (Cmd H))
+    (h : (w.entries.map (·.id)).Nodup) : ((run cfg ops w cs).1.entries.map (·.id)).Nodup :=
+  History.run_nodup cfg ops w cs h
 
 /-- A rejected command changes nothing: not the tree, not the history, not the stores below `.renamify`. -/
-theorem rejected_unchanged (ops : Ops Tree Plan Backup H) (w : World Tree Plan Backup H) (c : Cmd H)
-    (h : (step ops w c).2 = .rejected) : (step ops w c).1 = w :=
-  History.step_rejected ops w c h
+theorem rejected_unchanged (cfg : Cfg) (ops : Ops Tree Plan Backup H) (w : World Tree Plan Backup H) (c : Cmd H)
+    (h : (step cfg ops w c).2 = .rejected) : (step cfg ops w c).1 = w :=
+  History.step_rejected cfg ops w c h
 
 /-- Undo succeeds only on an entry that exists, is not itself a revert and has no revert yet;
     it then appends `revert-<id>-<now>` pointing at it. -/
-theorem undo_eligibility (ops : Ops Tree Plan Backup H) (w : World Tree Plan Backup H) (t : Target H)
-    (h : (step ops w (.undo t)).2 = .ok) :
+theorem undo_eligibility (cfg : Cfg) (ops : Ops Tree Plan Backup H) (w : World Tree Plan Backup H) (t : Target H)
+    (h : (step cfg ops w (.undo t)).2 = .ok) :
     ∃ i e, resolve w.entries true t = some i ∧ findEntry w.entries i = some e ∧ e.revertOf = none ∧
       hasRevertOf w.entries i = false ∧
-      (step ops w (.undo t)).1.entries = w.entries ++ [{ id := .revert i w.clock, revertOf := some i }] :=
-  History.undo_ok ops w t h
+      (step cfg ops w (.undo t)).1.entries = w.entries ++ [{ id := .revert i w.clock, revertOf := some i }] :=
+  History.undo_ok cfg ops w t h
 
-/-- Redo succeeds only on an entry that exists and has a revert — it does NOT test whether it was redone since. -/
-theorem redo_eligibility (ops : Ops Tree Plan Backup H) (w : World Tree Plan Backup H) (t : Target H)
-    (h : (step ops w (.redo t)).2 = .ok) :
+/-- Redo succeeds only on an entry that exists and has a revert; it appends `redo-<id>-<now>`. -/
+theorem redo_eligibility (cfg : Cfg) (ops : Ops Tree Plan Backup H) (w : World Tree Plan Backup H) (t : Target H)
+    (h : (step cfg ops w (.redo t)).2 = .ok) :
     ∃ i, resolve w.entries false t = some i ∧ hasId w.entries i = true ∧ hasRevertOf w.entries i = true ∧
-      (step ops w (.redo t)).1.entries = w.entries ++ [{ id := .redo i w.clock, revertOf := none }] :=
-  History.redo_ok ops w t h
+      (step cfg ops w (.redo t)).1.entries = w.entries ++ [{ id := .redo i w.clock, revertOf := none }] :=
+  History.redo_ok cfg ops w t h
 
+omit [DecidableEq H] in
 /-- `latest` for undo never resolves to a revert entry, `latest` for redo always to the target of one. -/
 theorem latest_undo_not_revert (es : List (Entry H)) (i : EId H) (h : latestUndo es = some i) :
     ∃ e ∈ es, e.id = i ∧ e.revertOf = none :=
@@ -89,24 +104,52 @@ theorem latest_redo_reverted (es : List (Entry H)) (i : EId H) (h : latestRedo e
     hasRevertOf es i = true :=
   History.latestRedo_spec es i h
 
-/-- Equal concatenated terms in the same second give the same id, and a rename whose id is already in the
-    history never succeeds (whatever it did to the tree before it found out). -/
-theorem duplicate_id_never_ok (ops : Ops Tree Plan Backup H) (w : World Tree Plan Backup H) (s r : Bytes)
-    (h : hasId w.entries (.plan (ops.hash (s ++ r) w.clock)) = true) : (step ops w (.rename s r)).2 ≠ .ok := by
-  intro hk
-  rcases History.stepRename_cases ops w s r with h' | h' | h'
-  · rw [h'.2.1] at h; cases h
-  · rcases h'.1 with h1 | h1 <;> simp [step, h1] at hk
-  · simp [step, h'.1] at hk
-
-/-- … and with an injective hash, different (terms, second) give different ids: freshness of a rename's id
-    then follows from "no entry was created from the same concatenated terms in this second". -/
+/-- With an injective hash, different (concatenated terms, second) give different ids. -/
 theorem fresh_of_injective (ops : Ops Tree Plan Backup H)
     (hinj : ∀ k k' s s', ops.hash k s = ops.hash k' s' → k = k' ∧ s = s')
     (es : List (Entry H)) (key : Bytes) (now : Nat)
     (h : ∀ e ∈ es, (∀ h', e.id ≠ .plan h') ∨ (∃ k s, e.id = .plan (ops.hash k s) ∧ ¬ (k = key ∧ s = now))) :
     hasId es (.plan (ops.hash key now)) = false :=
   History.fresh_of_injective ops hinj es key now h
+
+-- B. the code as it is ------------------------------------------------------------------------------------------
+
+/-- c3d511b.  A rename whose id is already in the history — equal concatenated terms in the same second — changes
+    nothing at all and does not report success; likewise a redo whose `redo-<id>-<now>` is already there. -/
+theorem duplicate_id_changes_nothing (ops : Ops Tree Plan Backup H) (w : World Tree Plan Backup H) :
+    (∀ s r, hasId w.entries (.plan (ops.hash (s ++ r) w.clock)) = true →
+      (step .current ops w (.rename s r)).1 = w ∧ (step .current ops w (.rename s r)).2 ≠ .ok) ∧
+    (∀ id p, hasId w.entries id = true → applyWithId .current ops w id p = (w, .rejected)) :=
+  ⟨fun s r h => History.stepRename_dup_current ops w s r h,
+   fun id p h => History.applyWithId_dup_current ops w id p h⟩
+
+/-- The only way a rename fails after a change is the tree side stopping half-way; the same for `apply_plan`
+    under any id (hence for redo). -/
+theorem failed_only_by_partial_apply (ops : Ops Tree Plan Backup H) (w : World Tree Plan Backup H) :
+    (∀ s r, (step .current ops w (.rename s r)).2 = .failed →
+      ∃ t', ops.apply w.tree (ops.scan w.tree s r) = .partly t') ∧
+    (∀ id p, (applyWithId .current ops w id p).2 = .failed → ∃ t', ops.apply w.tree p = .partly t') :=
+  ⟨fun s r h => History.stepRename_failed_current ops w s r h,
+   fun id p h => History.applyWithId_failed_current ops w id p h⟩
+
+/-- 07a4584.  A redo succeeds only on an id that has no redo entry yet, and gives it one. -/
+theorem redo_only_once (ops : Ops Tree Plan Backup H) (w : World Tree Plan Backup H) (t : Target H)
+    (h : (step .current ops w (.redo t)).2 = .ok) :
+    ∃ i, resolve w.entries false t = some i ∧ hasRedoOf w.entries i = false ∧
+      hasRedoOf (step .current ops w (.redo t)).1.entries i = true :=
+  History.stepRedo_ok_current ops w t h
+
+/-- … and from then on, whatever commands follow, `redo <id>` is rejected with the world unchanged. -/
+theorem redo_never_again (ops : Ops Tree Plan Backup H) (w : World Tree Plan Backup H) (i : EId H)
+    (h : hasRedoOf w.entries i = true) (cs : List (Cmd H)) :
+    step .current ops (run .current ops w cs).1 (.redo (.id i)) = ((run .current ops w cs).1, .rejected) := by
+  have hp := History.hasRedoOf_prefix _ _ i (History.run_prefix .current ops w cs) h
+  show stepRedo .current ops _ (.id i) = _
+  by_cases hid : hasId (run .current ops w cs).1.entries i = true
+  · exact History.stepRedo_redone_current ops _ (.id i) i (by simp [resolve, hid]) hp
+  · unfold stepRedo; simp [resolve, hid]
+
+-- C. refinement ------------------------------------------------------------------------------------------------
 
 /-- THE FULL STATEMENT (false today, see the witnesses): whatever the tree side, as long as it has the undo
     round-trip law, every command of every sequence from an empty history conforms to the abstract history:
@@ -125,17 +168,26 @@ theorem refines_spec_partial [DecidableEq Tree] (ops : Ops Tree Plan Backup H) (
     AllConform ops (init t clock : World Tree Plan Backup H) ([] : Spec Tree H) cs :=
   History.guarded_conform ops hRT cs _ _ (History.inv_init ops t clock) hG
 
-/-- One guarded step from any state satisfying the invariant (what the induction uses), exposed because it also
-    says: inside the guard an undo that succeeds addresses an operation that is applied in the abstract history,
-    and a redo one that is undone. -/
+/-- One guarded step from any state satisfying the invariant (what the induction uses).  In particular: an undo
+    that succeeds addresses an operation that is applied in the abstract history, a redo one that is undone — without
+    the guard saying so. -/
 theorem guarded_step_conforms [DecidableEq Tree] (ops : Ops Tree Plan Backup H) (hRT : RoundTrip ops)
     (w : World Tree Plan Backup H) (s : Spec Tree H) (c : Cmd H) (hI : History.Inv ops w s)
     (hG : G10 ops w s c = true) : Conforms ops w s c :=
   (History.inv_step ops hRT w s c hI hG).1
 
+/-- The eligibility scans of the implementation decide the abstract status, in every state reached inside the guard:
+    an entry without a revert carries an applied operation, a reverted and not-yet-redone entry an undone one. -/
+theorem eligibility_is_status (ops : Ops Tree Plan Backup H) (w : World Tree Plan Backup H) (s : Spec Tree H)
+    (hI : History.Inv ops w s) (e : Entry H) (he : e ∈ w.entries) (hn : e.revertOf = none) (o : Op Tree H)
+    (ho : find s e.id.root = some o) :
+    (hasRevertOf w.entries e.id = false → o.applied = true) ∧
+    (hasRevertOf w.entries e.id = true → hasRedoOf w.entries e.id = false → o.applied = false) :=
+  ⟨fun h => hI.status.unrevApplied e he hn h o ho, fun h1 h2 => hI.status.revUndone e he hn h1 h2 o ho⟩
+
 end generic
 
--- kernel-evaluated witnesses on the concrete tree side ------------------------------------------------
+-- kernel-evaluated statements on the concrete tree side ---------------------------------------------------------
 section witnesses
 open HistoryTree
 
@@ -147,66 +199,110 @@ abbrev C := Cmd HistoryTree.H
 def renA : C := .rename b!"foo_bar" b!"baz_qux"
 def renA' : C := .rename b!"foo" b!"foo_bar"
 def renB : C := .rename b!"alpha" b!"gamma"
+def idA : EId HistoryTree.H := .plan (b!"foo_barbaz_qux", 0)
+def idB : EId HistoryTree.H := .plan (b!"alphagamma", 0)
 
-/-- Two identical renames within one second: the second edits the tree AGAIN (`foo_bar_bar_bar`), then
-    `add_entry` refuses the duplicate id: exit ≠ 0, tree changed, no entry.  One second apart both succeed. -/
-theorem C10_witness_same_second :
-    (run ops (start t0) [renA', renA']).2 = [.ok, .failed] ∧
-    (run ops (start t0) [renA', renA']).1.entries.length = 1 ∧
-    get (run ops (start t0) [renA']).1.tree b!"f1.txt" = some b!"foo_bar_bar one\n" ∧
-    get (run ops (start t0) [renA', renA']).1.tree b!"f1.txt" = some b!"foo_bar_bar_bar one\n" ∧
-    (run ops (start t0) [renA', .tick, renA']).2 = [.ok, .noop, .ok] := by decide
-
-/-- rename, undo, redo, redo: the second redo is attempted again because `redo_renaming` only looks for a revert
-    entry (`redo_of` is never written).  With a replacement that contains the search term the stored plan
-    still validates, so it is applied a second time and recorded as a second redo.  With A (`foo_bar→baz_qux`)
-    the content validation happens to stop it. -/
-theorem C10_witness_redo_twice :
-    (run ops (start t0) [renA', .tick, .undo .latest, .tick, .redo .latest, .tick, .redo .latest]).2
-      = [.ok, .noop, .ok, .noop, .ok, .noop, .ok] ∧
-    (run ops (start t0) [renA', .tick, .undo .latest, .tick, .redo .latest, .tick, .redo .latest]).1.entries.length = 4 ∧
-    get (run ops (start t0) [renA', .tick, .undo .latest, .tick, .redo .latest]).1.tree b!"f1.txt"
-      = some b!"foo_bar_bar one\n" ∧
-    get (run ops (start t0) [renA', .tick, .undo .latest, .tick, .redo .latest, .tick, .redo .latest]).1.tree b!"f1.txt"
-      = some b!"foo_bar_bar_bar one\n" ∧
-    (run ops (start t0) [renA, .tick, .undo .latest, .tick, .redo .latest, .tick, .redo .latest]).2
-      = [.ok, .noop, .ok, .noop, .ok, .noop, .rejected] := by decide
-
-/-- Two redos of one id within a second: the plan is applied, then `add_entry` rejects `redo-<id>-<sec>`. -/
-theorem C10_witness_redo_id_collision :
-    (run ops (start t0) [renA', .tick, .undo .latest, .tick, .redo .latest, .redo .latest]).2
-      = [.ok, .noop, .ok, .noop, .ok, .failed] ∧
-    (run ops (start t0) [renA', .tick, .undo .latest, .tick, .redo .latest, .redo .latest]).1.entries.length = 3 ∧
-    get (run ops (start t0) [renA', .tick, .undo .latest, .tick, .redo .latest, .redo .latest]).1.tree b!"f1.txt"
-      = some b!"foo_bar_bar_bar one\n" := by decide
+-- the two remaining ways out of the property (code as it is) ----------------------------------------------------
 
 /-- Undo of a non-latest operation whose reverse patch no longer applies to one of its files: the files whose
     patch applies are restored (f1), the other is left alone with a `.rej` next to it (f3), exit ≠ 0, no entry:
     a failed command that changed the tree. -/
 theorem C10_witness_undo_older :
-    (run ops (start t0) [renA, .tick, renB, .tick, .undo (.id (.plan (b!"foo_barbaz_qux", 0)))]).2
+    (run .current ops (start t0) [renA, .tick, renB, .tick, .undo (.id idA)]).2
       = [.ok, .noop, .ok, .noop, .failed] ∧
-    (run ops (start t0) [renA, .tick, renB, .tick, .undo (.id (.plan (b!"foo_barbaz_qux", 0)))]).1.entries.length = 2 ∧
-    (run ops (start t0) [renA, .tick, renB, .tick, .undo (.id (.plan (b!"foo_barbaz_qux", 0)))]).1.tree
+    (run .current ops (start t0) [renA, .tick, renB, .tick, .undo (.id idA)]).1.entries.length = 2 ∧
+    (run .current ops (start t0) [renA, .tick, renB, .tick, .undo (.id idA)]).1.tree
       = [(b!"f1.txt", b!"foo_bar one\n"), (b!"f2.txt", b!"gamma x\n"),
          (b!"f3.txt", b!"use baz_qux and gamma\n"), (b!"f3.txt.rej", b!"REJ")] := by decide
-
-/-- The id hashes the CONCATENATION of search and replacement: `ab→c` and `a→bc` in one second collide. -/
-theorem C10_witness_concat_collision :
-    (run ops (start [(b!"g.txt", b!"ab a\n")]) [.rename b!"ab" b!"c", .rename b!"a" b!"bc"]).2 = [.ok, .failed] ∧
-    (run ops (start [(b!"g.txt", b!"ab a\n")]) [.rename b!"ab" b!"c", .rename b!"a" b!"bc"]).1.tree
-      = [(b!"g.txt", b!"c bc\n")] := by decide
 
 /-- A redo that is not "in place": B, undo B, then A' moves the offsets in f3; redoing B re-edits f2, then the
     stored plan fails validation on f3 and the command stops: exit ≠ 0, f2 changed, no entry (content edits are
     not rolled back — C04's defect, reached through a stale stored plan). -/
 theorem C10_witness_redo_partial :
-    (run ops (start t0) [renB, .tick, .undo .latest, .tick, renA', .tick, .redo (.id (.plan (b!"alphagamma", 0)))]).2
+    (run .current ops (start t0) [renB, .tick, .undo .latest, .tick, renA', .tick, .redo (.id idB)]).2
       = [.ok, .noop, .ok, .noop, .ok, .noop, .failed] ∧
-    (run ops (start t0) [renB, .tick, .undo .latest, .tick, renA', .tick, .redo (.id (.plan (b!"alphagamma", 0)))]).1.entries.length = 3 ∧
-    (run ops (start t0) [renB, .tick, .undo .latest, .tick, renA', .tick, .redo (.id (.plan (b!"alphagamma", 0)))]).1.tree
+    (run .current ops (start t0) [renB, .tick, .undo .latest, .tick, renA', .tick, .redo (.id idB)]).1.entries.length = 3 ∧
+    (run .current ops (start t0) [renB, .tick, .undo .latest, .tick, renA', .tick, .redo (.id idB)]).1.tree
       = [(b!"f1.txt", b!"foo_bar_bar one\n"), (b!"f2.txt", b!"gamma x\n"),
          (b!"f3.txt", b!"use foo_bar_bar and alpha\n")] := by decide
+
+-- what the repairs removed: the code before them vs. the code as it is -----------------------------------------------
+
+/-- BEFORE c3d511b: two identical renames within one second — the second edits the tree AGAIN (`foo_bar_bar_bar`),
+    then `add_entry` refuses the duplicate id: exit ≠ 0, tree changed, no entry. -/
+theorem same_second_before_fix :
+    (run .beforeFixes ops (start t0) [renA', renA']).2 = [.ok, .failed] ∧
+    (run .beforeFixes ops (start t0) [renA', renA']).1.entries.length = 1 ∧
+    get (run .beforeFixes ops (start t0) [renA']).1.tree b!"f1.txt" = some b!"foo_bar_bar one\n" ∧
+    get (run .beforeFixes ops (start t0) [renA', renA']).1.tree b!"f1.txt" = some b!"foo_bar_bar_bar one\n" := by decide
+
+/-- NOW: the second one is rejected and the whole world is as the first left it; one second apart both succeed. -/
+theorem same_second_now_rejected :
+    (run .current ops (start t0) [renA', renA']).2 = [.ok, .rejected] ∧
+    (run .current ops (start t0) [renA', renA']).1.tree = (run .current ops (start t0) [renA']).1.tree ∧
+    (run .current ops (start t0) [renA', renA']).1.entries = (run .current ops (start t0) [renA']).1.entries ∧
+    (run .current ops (start t0) [renA', .tick, renA']).2 = [.ok, .noop, .ok] := by decide
+
+/-- BEFORE c3d511b: the id hashes the CONCATENATION of search and replacement, so `ab→c` and `a→bc` in one second
+    collide, and the second had already edited the tree when it found out. -/
+theorem concat_collision_before_fix :
+    (run .beforeFixes ops (start [(b!"g.txt", b!"ab a\n")]) [.rename b!"ab" b!"c", .rename b!"a" b!"bc"]).2 = [.ok, .failed] ∧
+    (run .beforeFixes ops (start [(b!"g.txt", b!"ab a\n")]) [.rename b!"ab" b!"c", .rename b!"a" b!"bc"]).1.tree
+      = [(b!"g.txt", b!"c bc\n")] := by decide
+
+/-- NOW: they still collide (the hash input is unchanged), but the second command is refused untouched. -/
+theorem concat_collision_now_rejected :
+    (run .current ops (start [(b!"g.txt", b!"ab a\n")]) [.rename b!"ab" b!"c", .rename b!"a" b!"bc"]).2 = [.ok, .rejected] ∧
+    (run .current ops (start [(b!"g.txt", b!"ab a\n")]) [.rename b!"ab" b!"c", .rename b!"a" b!"bc"]).1.tree
+      = [(b!"g.txt", b!"c a\n")] := by decide
+
+/-- BEFORE 07a4584: rename, undo, redo, redo — the second redo was attempted again because `redo_renaming` only looked
+    for a revert entry; with a replacement that contains the search term the stored plan still validated, so it was
+    applied a second time and recorded as a second redo. -/
+theorem redo_twice_before_fix :
+    (run .beforeFixes ops (start t0) [renA', .tick, .undo .latest, .tick, .redo .latest, .tick, .redo .latest]).2
+      = [.ok, .noop, .ok, .noop, .ok, .noop, .ok] ∧
+    (run .beforeFixes ops (start t0) [renA', .tick, .undo .latest, .tick, .redo .latest, .tick, .redo .latest]).1.entries.length = 4 ∧
+    get (run .beforeFixes ops (start t0) [renA', .tick, .undo .latest, .tick, .redo .latest, .tick, .redo .latest]).1.tree b!"f1.txt"
+      = some b!"foo_bar_bar_bar one\n" := by decide
+
+/-- NOW: the second redo is rejected, the tree stays as the first redo left it; undoing the redo entry and redoing
+    THAT still works (the chain `X, redo-X-…, redo-redo-X-…-…`). -/
+theorem redo_twice_now_rejected :
+    (run .current ops (start t0) [renA', .tick, .undo .latest, .tick, .redo .latest, .tick, .redo .latest]).2
+      = [.ok, .noop, .ok, .noop, .ok, .noop, .rejected] ∧
+    get (run .current ops (start t0) [renA', .tick, .undo .latest, .tick, .redo .latest, .tick, .redo .latest]).1.tree b!"f1.txt"
+      = some b!"foo_bar_bar one\n" ∧
+    (run .current ops (start t0) [renA', .tick, .undo .latest, .tick, .redo .latest, .tick, .undo .latest, .tick,
+      .redo .latest, .tick, .redo .latest]).2
+      = [.ok, .noop, .ok, .noop, .ok, .noop, .ok, .noop, .ok, .noop, .rejected] := by decide
+
+/-- BEFORE both: two redos of one id within a second — the plan was applied, then `add_entry` rejected
+    `redo-<id>-<sec>`. -/
+theorem redo_id_collision_before_fix :
+    (run .beforeFixes ops (start t0) [renA', .tick, .undo .latest, .tick, .redo .latest, .redo .latest]).2
+      = [.ok, .noop, .ok, .noop, .ok, .failed] ∧
+    get (run .beforeFixes ops (start t0) [renA', .tick, .undo .latest, .tick, .redo .latest, .redo .latest]).1.tree b!"f1.txt"
+      = some b!"foo_bar_bar_bar one\n" := by decide
+
+/-- NOW: rejected, tree unchanged. -/
+theorem redo_id_collision_now_rejected :
+    (run .current ops (start t0) [renA', .tick, .undo .latest, .tick, .redo .latest, .redo .latest]).2
+      = [.ok, .noop, .ok, .noop, .ok, .rejected] ∧
+    get (run .current ops (start t0) [renA', .tick, .undo .latest, .tick, .redo .latest, .redo .latest]).1.tree b!"f1.txt"
+      = some b!"foo_bar_bar one\n" := by decide
+
+/-- Each repair is needed on its own: the early id check alone does not stop a repeated redo in another second … -/
+theorem early_check_alone_keeps_redo_twice :
+    (run { earlyDupCheck := true, redoOnce := false } ops (start t0)
+      [renA', .tick, .undo .latest, .tick, .redo .latest, .tick, .redo .latest]).2
+      = [.ok, .noop, .ok, .noop, .ok, .noop, .ok] := by decide
+
+/-- … and "redo only once" alone does not stop the same-second rename. -/
+theorem redo_once_alone_keeps_same_second :
+    (run { earlyDupCheck := false, redoOnce := true } ops (start t0) [renA', renA']).2 = [.ok, .failed] := by decide
+
+-- the refinement on the concrete tree side ---------------------------------------------------------------------------
 
 /-- The flat-file tree side satisfies the hypothesis of the refinement theorem … -/
 theorem roundtrip_concrete : RoundTrip HistoryTree.ops := HistoryTree.roundTrip
@@ -216,40 +312,42 @@ theorem refines_spec_concrete (t : HistoryTree.Tree) (clock : Nat) (cs : List C)
     (hG : Guarded ops (init t clock) [] cs = true) : AllConform ops (init t clock) [] cs :=
   refines_spec_partial ops HistoryTree.roundTrip t clock cs hG
 
-/-- Non-vacuity of the guard: a sequence with renames of three different plans, undo and redo by `latest` and by id,
-    a rejected redo and a rejected undo, one second apart, lies inside `G10` … -/
+/-- Non-vacuity of the guard: renames of three different plans, undo and redo by `latest` and by id, one second apart
+    and within one second, repeated redos, duplicates — all inside `G10` … -/
 example : Guarded ops (start t0) []
-    [renA, .tick, renB, .tick, .undo .latest, .tick, .redo .latest, .tick, .undo .latest, .tick,
-     .undo (.id (.plan (b!"foo_barbaz_qux", 0))), .tick, .redo (.id (.plan (b!"foo_barbaz_qux", 0))), .tick,
+    [renA, renA, .tick, renB, .tick, .undo .latest, .tick, .redo .latest, .redo .latest, .tick, .redo .latest, .tick,
+     .undo .latest, .tick, .undo (.id idA), .tick, .redo (.id idA), .tick, .redo (.id idA),
      .redo (.id (.plan (b!"nope", 7))), .undo (.id (.plan (b!"nope", 7))), renA', renB] = true := by decide
 
-/-- … while each witness sequence leaves it exactly at the offending command. -/
-example : Guarded ops (start t0) [] [renA', renA'] = false ∧ Guarded ops (start t0) [] [renA'] = true := by decide
-example : Guarded ops (start t0) [] [renA', .tick, .undo .latest, .tick, .redo .latest, .tick, .redo .latest] = false ∧
-    Guarded ops (start t0) [] [renA', .tick, .undo .latest, .tick, .redo .latest, .tick] = true := by decide
-example : Guarded ops (start t0) [] [renA, .tick, renB, .tick, .undo (.id (.plan (b!"foo_barbaz_qux", 0)))] = false ∧
-    Guarded ops (start t0) [] [renA, .tick, renB, .tick] = true := by decide
+/-- … the sequences of the repaired defects are now inside it … -/
+example : Guarded ops (start t0) [] [renA', renA'] = true ∧
+    Guarded ops (start t0) [] [renA', .tick, .undo .latest, .tick, .redo .latest, .tick, .redo .latest, .redo .latest] = true := by
+  decide
 
-/-- The full statement is false: the same-second witness is a counterexample for the flat-file tree side. -/
+/-- … while the two remaining witnesses leave it exactly at the offending command. -/
+example : Guarded ops (start t0) [] [renA, .tick, renB, .tick, .undo (.id idA)] = false ∧
+    Guarded ops (start t0) [] [renA, .tick, renB, .tick] = true := by decide
+example : Guarded ops (start t0) [] [renB, .tick, .undo .latest, .tick, renA', .tick, .redo (.id idB)] = false ∧
+    Guarded ops (start t0) [] [renB, .tick, .undo .latest, .tick, renA', .tick] = true := by decide
+
+/-- The full statement is still false: the undo-older witness is a counterexample for the flat-file tree side. -/
 theorem C10_full_false : ¬ C10_full := by
   intro h
   have h2 := h HistoryTree.Tree HistoryTree.Plan HistoryTree.Backup HistoryTree.H ops HistoryTree.roundTrip
-    (HistoryTree.normalize t0) 0 [renA', renA']
-  have hc : Conforms ops (step ops (init (HistoryTree.normalize t0) 0) renA').1
-      (specStep ops [] (init (HistoryTree.normalize t0) 0) renA') renA' := h2.2.1
-  have hbad : ¬ Conforms ops (step ops (init (HistoryTree.normalize t0) 0) renA').1
-      (specStep ops [] (init (HistoryTree.normalize t0) 0) renA') renA' := by
-    unfold Conforms
-    intro hh
-    rcases hh with ⟨hok, _⟩ | ⟨_, htree, _⟩
-    · revert hok; decide
-    · revert htree; decide
-  exact hbad hc
+    (HistoryTree.normalize t0) 0 [renA, .tick, renB, .tick, .undo (.id idA)]
+  have hc := h2.2.2.2.2.1
+  revert hc
+  unfold Conforms
+  intro hh
+  rcases hh with ⟨hok, _⟩ | ⟨_, htree, _⟩
+  · revert hok; decide
+  · revert htree; decide
 
-/-- Non-vacuity of the eligibility theorems: undo and redo do succeed in the model. -/
-example : (step ops (run ops (start t0) [renA, .tick]).1 (.undo .latest)).2 = .ok := by decide
-example : (step ops (run ops (start t0) [renA, .tick, .undo .latest, .tick]).1 (.redo .latest)).2 = .ok := by decide
-example : (step ops (run ops (start t0) [renA]).1 (.redo .latest)).2 = .rejected := by decide
+/-- Non-vacuity of the eligibility theorems: undo and redo do succeed in the model, and are refused when they should. -/
+example : (step .current ops (run .current ops (start t0) [renA, .tick]).1 (.undo .latest)).2 = .ok := by decide
+example : (step .current ops (run .current ops (start t0) [renA, .tick, .undo .latest, .tick]).1 (.redo .latest)).2 = .ok := by decide
+example : (step .current ops (run .current ops (start t0) [renA]).1 (.redo .latest)).2 = .rejected := by decide
+example : hasRedoOf (run .current ops (start t0) [renA, .tick, .undo .latest, .tick, .redo .latest]).1.entries idA = true := by decide
 
 end witnesses
 
